@@ -1,0 +1,19 @@
+// Copyright 2026 Juan Pablo Tosso and the OWASP Coraza contributors
+// SPDX-License-Identifier: Apache-2.0
+
+//go:build verif
+
+package collections
+
+import "github.com/corazawaf/coraza/v3/types"
+
+// VerifOrder (build tag "verif" only) lets a conformance harness impose the order in which a
+// map-backed collection hands out its elements, i.e. play the runtime's hash-iteration order.
+// It reorders the slice in place. nil by default.
+var VerifOrder func(matches []types.MatchData)
+
+func verifOrder(matches []types.MatchData) {
+	if VerifOrder != nil && len(matches) > 1 {
+		VerifOrder(matches)
+	}
+}
